@@ -87,11 +87,23 @@ def liveLeafLen (vol : PImg) (root : Nat) : Nat :=
 /-- no key of the live tree is above a key that is to be sunk (keys ascend with time) -/
 def LiveAscends (vol : PImg) (root : Nat) (qs : List Nat) : Prop :=
   match vol.trees.find? (fun t => t.key == root) with
-  | some t => ∀ x ∈ t.leaves.flatMap (fun l => l.entries.filterMap id), ∀ q ∈ qs, x ≤ q
+  | some t => ∀ x ∈ t.leaves.flatMap (fun l => l.entries.filterMap id), ∀ q ∈ qs, x < q
   | none => True
 
 instance (vol : PImg) (root : Nat) (qs : List Nat) : Decidable (LiveAscends vol root qs) := by
   unfold LiveAscends
+  cases vol.trees.find? (fun t => t.key == root) <;> simp only <;> infer_instance
+
+/-- no key that is to be sunk is in the live tree already (it would be: after a compaction that
+    died with an in-place leaf write durable and its manifest not; `replace_property_entry` then
+    deletes the entry first — not covered by the proofs) -/
+def LiveFresh (vol : PImg) (root : Nat) (qs : List Nat) : Prop :=
+  match vol.trees.find? (fun t => t.key == root) with
+  | some t => ∀ x ∈ t.leaves.flatMap (fun l => l.entries.filterMap id), ∀ q ∈ qs, x ≠ q
+  | none => True
+
+instance (vol : PImg) (root : Nat) (qs : List Nat) : Decidable (LiveFresh vol root qs) := by
+  unfold LiveFresh
   cases vol.trees.find? (fun t => t.key == root) <;> simp only <;> infer_instance
 
 def NoSplit (cfg : Cfg) (m : Mem) (vol : PImg) : Prop := liveLeafLen vol m.proot + (cProps m).length ≤ cfg.leafCap
@@ -99,14 +111,20 @@ def NoSplit (cfg : Cfg) (m : Mem) (vol : PImg) : Prop := liveLeafLen vol m.proot
 instance (cfg : Cfg) (m : Mem) (vol : PImg) : Decidable (NoSplit cfg m vol) :=
   inferInstanceAs (Decidable (_ ≤ _))
 
-/-- the weaker condition: sinking into a NEW tree may split leaves at will; sinking into the LIVE
-    tree must not split its last leaf (an in-place split of the live tree is finding
-    C01-live-tree-in-place) and, when the tree has an internal root, must append (keys ascend) -/
+/-- the condition on a compaction: the keys to be sunk are distinct; sinking into a NEW tree may
+    split leaves at will; sinking into the LIVE tree must not split its last leaf (an in-place split
+    of the live tree is finding C01-live-tree-in-place), the keys must be new to it and, when the
+    tree has an internal root, must lie above its keys (keys ascend with time) -/
 def NoLiveSplit (cfg : Cfg) (m : Mem) (vol : PImg) : Prop :=
-  m.proot ≠ 0 → cProps m ≠ [] → NoSplit cfg m vol ∧ (m.ptop = true → LiveAscends vol m.proot (cProps m))
+  (cProps m).Nodup ∧
+  (m.proot ≠ 0 → cProps m ≠ [] →
+    NoSplit cfg m vol ∧ LiveFresh vol m.proot (cProps m) ∧ (m.ptop = true → LiveAscends vol m.proot (cProps m)))
 
 instance (cfg : Cfg) (m : Mem) (vol : PImg) : Decidable (NoLiveSplit cfg m vol) :=
-  inferInstanceAs (Decidable (_ → _ → _ ∧ (_ → _)))
+  inferInstanceAs (Decidable (_ ∧ (_ → _ → _ ∧ _ ∧ (_ → _))))
+
+theorem pairwise_lt_of_nodup {l : List Nat} (h : l.Pairwise (· ≤ ·)) (hn : l.Nodup) : l.Pairwise (· < ·) :=
+  (h.and hn).imp (fun ⟨h1, h2⟩ => Nat.lt_of_le_of_ne h1 h2)
 
 /-! ### segments and trees of the volatile image -/
 
@@ -204,7 +222,9 @@ theorem leaf1_empty (r : Nat) : Leaf1 (emptyTree r) [] r := ⟨rfl, rfl⟩
 
 theorem pblk_treeA (cfg : Cfg) (hcap1 : 1 ≤ cfg.leafCap) (m : Mem) (vol : PImg) (ps : PS) (nd : Nat) (hsk : SameKey p0.hdr ps.pm)
     (hnp : min ps.bm ps.pm.nextPage = nd) (hpos : 0 < nd) (hlive : live = m.proot) (hvol : vol.trees = p0.trees)
-    (hns : m.proot ≠ 0 → cProps m ≠ [] → NoSplit cfg m vol ∧ (lv.top = true → LiveAscends vol m.proot (cProps m)))
+    (hnd : (cProps m).Nodup)
+    (hns : m.proot ≠ 0 → cProps m ≠ [] →
+      NoSplit cfg m vol ∧ LiveFresh vol m.proot (cProps m) ∧ (lv.top = true → LiveAscends vol m.proot (cProps m)))
     (hprops : ∀ q ∈ cProps m, q ∈ allowed) (hcov0 : live = 0 → covered = [])
     (htree : live ≠ 0 → ∃ t last, treeFind p0 live = some t ∧ LiveOK allowed covered lv t last) :
     ∃ nd' effs, PBlk p0 live allowed covered lv lo nd ps (treeA cfg m vol ps).1 effs nd' (treeA cfg m vol ps).2.1 ∧
@@ -232,7 +252,7 @@ theorem pblk_treeA (cfg : Cfg) (hcap1 : 1 ≤ cfg.leafCap) (m : Mem) (vol : PImg
         treeShape_single (emptyTree (allocA ps).2.2) [] (allocA ps).2.2 rfl (by intro i j _ hj; simp at hj) rfl
       obtain ⟨nd2, e2, bs, hTE2, hf2, Xi2, last2, tp2, hsh2, hflat2, hbl2, hkey2⟩ :=
         pblk_sinkNew (p0 := p0) (live := live) (lo := lo) (allowed := allowed) (covered := covered) (lv := lv) cfg hcap1 (cProps m) (nd + 1)
-          (allocA ps).2.1 (emptyTree (allocA ps).2.2) [] [] false ba.sk ba.np hrne hsh0 (sortNat_pairwise _) (by intro x hx; simp at hx)
+          (allocA ps).2.1 (emptyTree (allocA ps).2.2) [] [] false ba.sk ba.np hrne hsh0 (pairwise_lt_of_nodup (sortNat_pairwise _) hnd) (by intro x hx; simp at hx)
       have hall := (ba.append bn).append bs
       have hroot : (treeA cfg m vol ps).2.2.1 = (allocA ps).2.2 := by
         simp only [treeA, hpe, treeStartA, hr, if_true, Bool.false_eq_true, if_false]
@@ -261,7 +281,7 @@ theorem pblk_treeA (cfg : Cfg) (hcap1 : 1 ≤ cfg.leafCap) (m : Mem) (vol : PImg
           exact ⟨by rw [hflat2]; simpa using hq, (hbl2 q).mpr (Or.inl hq)⟩
     · -- the live tree: appends to its last leaf, with room
       have hl : live ≠ 0 := by rw [hlive]; exact hr
-      obtain ⟨hns', hasc⟩ := hns hr hp
+      obtain ⟨hns', hfresh, hasc⟩ := hns hr hp
       obtain ⟨t0, last, hf0, hok0⟩ := htree hl
       have hk0 : t0.key = live := (treeFind_key hf0).2
       have hfv : vol.trees.find? (fun t => t.key == m.proot) = some t0 := by
@@ -278,13 +298,13 @@ theorem pblk_treeA (cfg : Cfg) (hcap1 : 1 ≤ cfg.leafCap) (m : Mem) (vol : PImg
           (r.2.2.key ≠ 0) := fun r h => by rw [h, hk0]; exact hl
       by_cases htop : lv.top = true
       · -- several leaves under an internal root: keys ascend
-        have hq : ∀ x ∈ (lv.Xi ++ [last]).flatten, ∀ q ∈ cProps m, x ≤ q := by
+        have hq : ∀ x ∈ (lv.Xi ++ [last]).flatten, ∀ q ∈ cProps m, x < q := by
           have := hasc htop
           simp only [LiveAscends, hfv, hlv, entries_mkLeaves] at this
           exact this
         obtain ⟨effs, bs, hTE, hf2, hsh2, hbl2, hkey2⟩ :=
           pblk_sinkLive (p0 := p0) (live := live) (lo := lo) (allowed := allowed) (covered := covered) (lv := lv) cfg (cProps m) nd ps t0 last
-            hsk hnp hok0.shape hok0.hd hok0.allowed (fun q hq' => (hok0.covered q hq').1) hprops hcap (sortNat_pairwise _) hq
+            hsk hnp hok0.shape hok0.hd hok0.allowed (fun q hq' => (hok0.covered q hq').1) hprops hcap (pairwise_lt_of_nodup (sortNat_pairwise _) hnd) hq
         have hroot : (treeA cfg m vol ps).2.2.1 = live := by
           simp only [treeA, hpe, treeStartA, hr, if_false, Bool.false_eq_true, hfind]
           rw [hkey2]; exact hk0
@@ -327,7 +347,13 @@ theorem pblk_treeA (cfg : Cfg) (hcap1 : 1 ≤ cfg.leafCap) (m : Mem) (vol : PImg
           have := hok0.covered q hq; rw [hflat] at this; exact this
         have hl1 : Leaf1 t0 last pid0 := ⟨hlv1, hino⟩
         obtain ⟨bs, hres⟩ := pblk_sink (p0 := p0) (live := live) (lo := lo) (allowed := allowed) (covered := covered) (lv := lv) cfg (cProps m) nd
-          ps t0 last pid0 hsk hnp hl1 hcap (Or.inr ⟨hXi, hsrt, hal, fun q hq => (hcv q hq).1, hprops⟩)
+          ps t0 last pid0 hsk hnp hl1 hcap hnd
+          (by
+            have := hfresh
+            simp only [LiveFresh, hfv, hlv, entries_mkLeaves, hflat] at this
+            intro q hq hin
+            exact this q hin q hq rfl)
+          (Or.inr ⟨hXi, hsrt, hal, fun q hq => (hcv q hq).1, hprops⟩)
         refine ⟨_, _, by simpa [treeA, treeStartA, hpe, hr, hfind] using bs, sinkEffs_treeE _ _ _ _, fun h => absurd h hp,
           fun _ => ⟨?_, ?_⟩⟩
         · simp only [treeA, hpe, treeStartA, hr, if_false, Bool.false_eq_true, hfind, hres]
@@ -432,7 +458,7 @@ theorem pages_post_lv {cfg : Cfg} {T : List Tx} {fs : FS} {m : Mem} {cs : List C
     omega
   obtain ⟨nd2, teffs, btree, hTE, hcase1, hcase2⟩ :=
     pblk_treeA (p0 := fs.pd) (live := m.proot) (lo := frontier fs.pd) (allowed := allProps T) (covered := covered) (lv := lv) cfg hcap1 m fs.pv (segA m (m.ps fs.pv)).2.1 nd1
-      bseg.sk bseg.np hpos rfl (by rw [hpv]) (fun hr hp => by rw [hlv, ← h.mptop]; exact hns hr hp) hprops (by rw [hlive]; exact hc2) (by rw [hlive]; exact hc3)
+      bseg.sk bseg.np hpos rfl (by rw [hpv]) hns.1 (fun hr hp => by rw [hlv, ← h.mptop]; exact hns.2 hr hp) hprops (by rw [hlive]; exact hc2) (by rw [hlive]; exact hc3)
   obtain ⟨ba, _, hef⟩ := pblk_alloc_eq (p0 := fs.pd) (live := m.proot) (lo := frontier fs.pd) (allowed := allProps T) (covered := covered) (lv := lv)
     (treeA cfg m fs.pv (segA m (m.ps fs.pv)).2.1).2.1 btree.sk btree.np
   have bw := pblk_write (p0 := fs.pd) (live := m.proot) (lo := frontier fs.pd) (allowed := allProps T) (covered := covered) (lv := lv) ba.sk ba.np .stats
